@@ -1,7 +1,10 @@
 /-
 R2: the byte-level value table (Pdb/Model/ValueTable.lean, proved in C06) implements the
-abstract value store of the index model (one tier: cells by slot number, fill mark, LIFO free
-list): reads, allocation order, insert / replace in place / remove, and the slot invariant.
+abstract value store of the index model (one tier: cells by head slot, fill mark, LIFO free
+list, continuation slots of the chains).  This file: `absVT` and reads, the frame of the table
+operations (M3: slots outside the written / cleared chains are untouched), what a written chain
+looks like, and the representation relation `RepL` (chains).  The operations (insert / replace in
+place / remove) are in Pdb/Proofs/Refine4.lean.
 -/
 import Pdb.Model.Refine
 import Pdb.Props.C06
@@ -116,7 +119,7 @@ theorem absVT_congr_single (t t' : VT) (hcfg : SameCfg t t') (hmp : t.multipart 
   simp only [hs, hcfg.1, hcfg.2.2, hmp, hmp']
   simp
 
-/-! ## frame: what a write to a single-slot table leaves alone -/
+/-! ## frame (M3): slots outside the written / cleared chains are untouched -/
 
 theorem nextFree_slots (t t1 : VT) (a : Nat) (h : nextFree t = .ok (t1, a)) : t1.slots = t.slots := by
   unfold nextFree at h
@@ -150,38 +153,235 @@ theorem allocN_slots : ∀ (n : Nat) (t t' : VT) (l : List Nat), allocN t n = .o
         injection h with h; injection h with h1 _; subst h1
         rw [ih t1 t2 l2 hal, nextFree_slots t t1 a hnf]
 
-theorem oldWalk_single (t : VT) (hmp : t.multipart = false) (n : Nat) (hn : 0 < n) (at_ : Option Nat) :
-    (oldWalk t n at_).2 = none := by
-  cases at_ with
-  | none => rfl
-  | some i =>
-    cases n with
-    | zero => omega
-    | succ m =>
-      simp only [oldWalk, walk, nextPart, hmp]
-      simp
+/-- `clear_chain` touches only the slots it clears and never moves the fill mark -/
+theorem clearChain_frame : ∀ (f : Nat) (t : VT) (i : Nat) (t' : VT) (l : List Nat),
+    clearChain t f i = .ok (t', l) →
+    (∀ j, j ∉ l → t'.slots j = t.slots j) ∧ t'.filled = t.filled := by
+  intro f
+  induction f with
+  | zero => intro t i t' l h; simp [clearChain] at h
+  | succ f ih =>
+    intro t i t' l h
+    simp only [clearChain] at h
+    cases hn : nextPart t i with
+    | none =>
+      rw [hn] at h
+      simp only at h
+      injection h with h
+      injection h with h1 h2
+      subst h1; subst h2
+      exact ⟨fun j hj => clearSlot_ne t i j (by simpa using hj), rfl⟩
+    | some nx =>
+      rw [hn] at h
+      simp only at h
+      cases hc : clearChain (clearSlot t i) f nx with
+      | error e => rw [hc] at h; cases h
+      | ok r =>
+        obtain ⟨t2, l2⟩ := r
+        rw [hc] at h
+        simp only at h
+        injection h with h
+        injection h with h1 h2
+        subst h1; subst h2
+        obtain ⟨g1, g2⟩ := ih _ _ _ _ hc
+        refine ⟨fun j hj => ?_, by rw [g2]; rfl⟩
+        simp only [List.mem_cons, not_or] at hj
+        rw [g1 j hj.2]
+        exact clearSlot_ne t i j hj.1
 
-/-- a write to a table without multipart support touches only the slots of the new chain -/
-theorem writeChain_frame_single (t : VT) (key : TKey) (v : Bytes) (at_ : Option Nat) (c : Bool)
-    (r : WrOk) (hmp : t.multipart = false) (h : writeChain t key v at_ c = .ok r) (j : Nat)
-    (hj : j ∉ r.chain) : r.table.slots j = t.slots j := by
+/-- `write_remove_plan` touches only the slots it returns -/
+theorem removePlan_frame (t : VT) (i : Nat) (t' : VT) (l : List Nat)
+    (h : removePlan t i = .ok (t', l)) : ∀ j, j ∉ l → t'.slots j = t.slots j := by
+  unfold removePlan at h
+  cases hmp : t.multipart
+  · rw [hmp] at h
+    simp only [Bool.false_eq_true, if_false] at h
+    injection h with h
+    injection h with h1 h2
+    subst h1; subst h2
+    intro j hj
+    exact clearSlot_ne t i j (by simpa using hj)
+  · rw [hmp] at h
+    simp only [if_true] at h
+    exact (clearChain_frame _ _ _ _ _ h).1
+
+/-- `overwrite_chain`, whatever the table: only the slots of the new chain and the freed slots
+of the old one are touched; the fill mark moves by exactly what neither the old chain nor the
+free list could supply. -/
+theorem writeChain_struct (t : VT) (key : TKey) (v : Bytes) (at_ : Option Nat) (c : Bool) (r : WrOk)
+    (F : List Nat) (hF : FreeChain t t.lastRemoved F) (hpos : 0 < t.filled)
+    (h : writeChain t key v at_ c = .ok r) :
+    (∀ j, j ∉ r.chain → j ∉ r.freed → r.table.slots j = t.slots j) ∧
+    r.table.filled = t.filled + ((chunksOf t key v).length -
+      (oldWalk t (chunksOf t key v).length at_).1.length - F.length) := by
   unfold writeChain at h
   by_cases hp : writePanics t key v
   · rw [if_pos hp] at h; cases h
   rw [if_neg hp] at h
-  have hw2 := oldWalk_single t hmp (chunksOf t key v).length
-    (by unfold chunksOf; exact List.length_pos_iff.mpr (splitBody_ne_nil _ _ _ _)) at_
+  generalize oldWalk t (chunksOf t key v).length at_ = w at h ⊢
+  obtain ⟨w1, w2⟩ := w
+  obtain ⟨t1, hal, hs1, _, hf1, _⟩ := allocN_spec ((chunksOf t key v).length - w1.length) t F hF hpos
   unfold writeCore at h
-  cases hal : allocN t ((chunksOf t key v).length - (oldWalk t (chunksOf t key v).length at_).1.length) with
-  | error e => rw [hal] at h; cases h
-  | ok r1 =>
-    obtain ⟨t1, fresh⟩ := r1
-    rw [hal] at h
-    simp only [hw2] at h
+  simp only at h hal
+  rw [hal] at h
+  simp only at h
+  have hwp := writeParts_cfg c t1 true (w1 ++ (F.take ((chunksOf t key v).length - w1.length) ++
+    List.range' t.filled ((chunksOf t key v).length - w1.length - F.length))) (chunksOf t key v)
+  cases w2 with
+  | none =>
+    simp only at h
     injection h with h
     subst h
-    simp only at hj ⊢
-    rw [writeParts_notin _ _ _ _ _ _ hj, allocN_slots _ _ _ _ hal]
+    refine ⟨fun j hj _ => ?_, ?_⟩
+    · simp only at hj ⊢
+      rw [writeParts_notin _ _ _ _ _ _ hj, hs1]
+    · simp only
+      rw [hwp.2.1, hf1]
+  | some nx =>
+    simp only at h
+    by_cases h0 : nx = 0
+    · rw [if_pos h0] at h
+      injection h with h
+      subst h
+      refine ⟨fun j hj _ => ?_, ?_⟩
+      · simp only at hj ⊢
+        rw [writeParts_notin _ _ _ _ _ _ hj, hs1]
+      · simp only
+        rw [hwp.2.1, hf1]
+    · rw [if_neg h0] at h
+      split at h
+      · rename_i t3 freed hcl
+        injection h with h
+        subst h
+        obtain ⟨g1, g2⟩ := clearChain_frame _ _ _ _ _ hcl
+        refine ⟨fun j hj hj2 => ?_, ?_⟩
+        · simp only at hj hj2 ⊢
+          rw [g1 j hj2, writeParts_notin _ _ _ _ _ _ hj, hs1]
+        · simp only
+          rw [g2, hwp.2.1, hf1]
+      · cases h
+
+/-! ## what a written chain looks like -/
+
+/-- the bytes of a part that is not the first one never carry a head marker -/
+theorem encodePart_not_head (compressed : Bool) (c : Bytes) (nx : Option Nat)
+    (hlen : nx = none → c.length < 32765) : ¬ isMultiHead (encodePart compressed false c nx) := by
+  cases nx with
+  | none =>
+    simp only [encodePart]
+    intro hh
+    exact (sized_slot c compressed (hlen rfl)).2.1 (Or.inr hh)
+  | some n =>
+    simp only [encodePart, Bool.false_eq_true, if_false]
+    have : (MULTIPART ++ leBytes INDEX_SIZE n ++ c).take SIZE_SIZE = MULTIPART := by
+      rw [List.append_assoc]; exact take_marker _ _ (by decide)
+    unfold isMultiHead isMultiHeadCompressed
+    rw [this]
+    decide
+
+/-- in a written chain no part after the first is a chain head -/
+theorem Written_tail_plain (s : VT) (compressed : Bool) (hfs : freeSpace s ≤ maxStoredLen) :
+    ∀ (idxs : List Nat) (first : Bool) (chunks : List Bytes),
+      Written s compressed first idxs chunks → GoodChunks (freeSpace s) (partCap s) chunks →
+      ∀ j ∈ idxs.tail, ¬ isMultiHead (s.slots j) := by
+  intro idxs
+  induction idxs with
+  | nil => intro first chunks _ _ j hj; simp at hj
+  | cons i is ih =>
+    intro first chunks hw hg j hj
+    cases chunks with
+    | nil => simp [Written] at hw
+    | cons c cs =>
+      simp only [Written] at hw
+      simp only [List.tail_cons] at hj
+      cases is with
+      | nil => simp at hj
+      | cons j0 js =>
+        cases cs with
+        | nil => simp [Written] at hw
+        | cons c' cs' =>
+          simp only [GoodChunks] at hg
+          rcases List.mem_cons.1 hj with e | e
+          · subst e
+            have hw2 := hw.2
+            simp only [Written] at hw2
+            rw [hw2.1]
+            apply encodePart_not_head
+            intro hnone
+            cases js with
+            | cons a b => simp at hnone
+            | nil =>
+              cases cs' with
+              | cons a b => simp [Written] at hw2
+              | nil =>
+                have := hg.2
+                simp only [GoodChunks] at this
+                have := maxStoredLen_lt
+                omega
+          · exact ih false (c' :: cs') hw.2 hg.2 j (by simpa using e)
+
+/-- `writeChain_spec` (C06) also establishes that the new chain holds the encoded parts -/
+theorem writeChain_written (t : VT) (key : TKey) (v : Bytes) (compressed : Bool)
+    (F c0 : List Nat) (Lr : List (List Nat)) (hok : WriteOk t key v)
+    (hF : FreeChain t t.lastRemoved F)
+    (hnd : (F ++ (c0 ++ Lr.flatten)).Nodup)
+    (hrange : ∀ i ∈ F ++ (c0 ++ Lr.flatten), 1 ≤ i ∧ i < t.filled)
+    (hcount : F.length + (c0.length + Lr.flatten.length) + 1 = t.filled)
+    (hchains : ∀ c ∈ Lr, IsChain t c)
+    (hc0 : c0 = [] ∨ IsChain t c0)
+    (hb : t.filled + numParts t key v ≤ 2 ^ 64) :
+    ∃ r, writeChain t key v c0.head? compressed = .ok r ∧
+      Written r.table compressed true r.chain (chunksOf t key v) := by
+  obtain ⟨hes, hfs, hcap, hle, hshort, hhdr⟩ := hok.facts
+  obtain ⟨hg, p0, cs, hchunks, hval, hshape⟩ := chunksOf_shape hok
+  have hmp : 2 ≤ (chunksOf t key v).length → t.multipart = true := by
+    intro h2
+    rcases hshape with ⟨_, h⟩ | ⟨h, _⟩
+    · rw [hchunks, h] at h2; simp at h2
+    · exact h
+  have hguard2 : ¬ (freeSpace t < (bodyOf t key v).length ∧ partCap t ≤ hdrLen t key) := by
+    intro ⟨h1, h2⟩
+    cases hm : t.multipart
+    · have := hshort hm; omega
+    · have := hhdr hm; omega
+  have hwc : writeChain t key v c0.head? compressed =
+      writeCore t compressed (chunksOf t key v) (c0.take (numParts t key v), c0[numParts t key v]?) := by
+    unfold writeChain
+    have hnp : ¬ writePanics t key v := by
+      intro h
+      rcases h with h | h
+      · exact h hok.fits
+      · exact hguard2 h
+    rw [if_neg hnp, oldWalk_spec t _ c0 hc0]
+    rfl
+  by_cases hm : c0.length ≤ numParts t key v
+  · have htake : c0.take (numParts t key v) = c0 := List.take_of_length_le hm
+    have hget : c0[numParts t key v]? = none := List.getElem?_eq_none (by omega)
+    obtain ⟨r, h1, h2, _, _, h5, _⟩ := writeCore_extend t compressed (chunksOf t key v)
+      F c0 Lr hfs hg hmp hF hnd hrange hcount hchains hb hm
+    exact ⟨r, by rw [hwc, htake, hget]; exact h1, by rw [h2]; exact h5⟩
+  · have hm' : (chunksOf t key v).length < c0.length := by unfold numParts at hm; omega
+    have hc0' : IsChain t c0 := by
+      rcases hc0 with h | h
+      · rw [h] at hm'; simp at hm'
+      · exact h
+    obtain ⟨r, h1, h2, _, _, h5, _⟩ := writeCore_shrink t compressed (chunksOf t key v)
+      F c0 Lr hfs hg hmp hF hnd hrange hcount hchains hc0' (by omega) hm'
+    exact ⟨r, by rw [hwc]; exact h1, by rw [h2]; exact h5⟩
+
+/-- a slot of a multipart table that is not a chain head holds no value -/
+theorem absVT_nonhead (t : VT) (i : Nat) (hmp : t.multipart = true) (h : ¬ isMultiHead (t.slots i)) :
+    absVT t i = none := by
+  cases h1 : absVT t i with
+  | none => rfl
+  | some x =>
+    obtain ⟨tl, v, c⟩ := x
+    obtain ⟨n, hn⟩ := read_of_absVT t tl i v c h1
+    obtain ⟨rest, e⟩ := readChain_shape t (.partialKey tl) i
+    rw [e] at hn
+    by_cases ht : isTombstone (t.slots i)
+    · rw [if_pos ht] at hn; cases hn
+    · rw [if_neg ht, if_pos ⟨hmp, h⟩] at hn; cases hn
 
 /-! ## counting -/
 
@@ -215,27 +415,6 @@ theorem cover_of_count (l : List Nat) (f : Nat) (hnd : l.Nodup) (hr : ∀ x ∈ 
   simp only [List.length_cons] at this
   omega
 
-theorem flatten_singletons (l : List Nat) : (l.map (fun a => [a])).flatten = l := by
-  induction l with
-  | nil => rfl
-  | cons a r ih => simp [ih]
-
-/-! ## the representation relation (single-slot tables) -/
-
-/-- The byte-level table `t` represents the abstract store `A`; `live` lists the live slots. -/
-structure RepL (t : VT) (A : AStore) (live : List Nat) : Prop where
-  single : t.multipart = false
-  /-- every slot reads as the abstract cell -/
-  cells : ∀ i, absVT t i = A.cell i
-  filled : t.filled = A.tier.filled
-  /-- C06's invariant with the free list of the index model and one-slot chains -/
-  inv : ValueTable.SlotInv t A.tier.free (live.map (fun a => [a]))
-  liveIff : ∀ a, a ∈ live ↔ (A.cell a).isSome = true
-  /-- the header slot and the slots at or above the fill mark were never written -/
-  blank : ∀ i, (i = 0 ∨ t.filled ≤ i) → t.slots i = []
-
-def Rep (t : VT) (A : AStore) : Prop := ∃ live, RepL t A live
-
 theorem numParts_single {t : VT} {key : TKey} {v : Bytes} (hok : WriteOk t key v)
     (hmp : t.multipart = false) : numParts t key v = 1 := by
   obtain ⟨_, p0, cs, hch, _, hshape⟩ := chunksOf_shape hok
@@ -244,52 +423,135 @@ theorem numParts_single {t : VT} {key : TKey} {v : Bytes} (hok : WriteOk t key v
   · rw [hch, h]; rfl
   · rw [hmp] at h; cases h
 
-theorem RepL.live_nodup {t : VT} {A : AStore} {live : List Nat} (h : RepL t A live) :
-    live.Nodup := by
-  have := h.inv.nodup
-  rw [flatten_singletons] at this
-  exact (List.nodup_append.mp this).2.1
+/-- the number of parts depends on the configuration of the table only -/
+theorem numParts_cfg (t t' : VT) (key : TKey) (v : Bytes) (h : SameCfg t t') :
+    numParts t' key v = numParts t key v := by
+  unfold numParts chunksOf bodyOf
+  rw [h.freeSpace_eq, h.partCap_eq, h.rcBytes_eq]
 
-/-- The index model's slot invariant (`Index.SlotInv`, one tier), read off the byte level. -/
-structure AStoreInv (A : AStore) : Prop where
-  /-- free-list members and slots at or above the fill mark hold no value -/
-  fresh : ∀ off, (off ∈ A.tier.free ∨ A.tier.filled ≤ off) → A.cell off = none
-  /-- live slots lie below the fill mark -/
-  addr : ∀ off, (A.cell off).isSome = true → 1 ≤ off ∧ off < A.tier.filled
-  nodup : A.tier.free.Nodup
-  range : ∀ off ∈ A.tier.free, 1 ≤ off ∧ off < A.tier.filled
-  filled : 1 ≤ A.tier.filled
-  /-- no leaked slot -/
-  cover : ∀ off, 1 ≤ off → off < A.tier.filled → off ∈ A.tier.free ∨ (A.cell off).isSome = true
+/-! ## chains as lists -/
 
-theorem RepL.storeInv {t : VT} {A : AStore} {live : List Nat} (h : RepL t A live) :
-    AStoreInv A := by
-  have hnd := h.inv.nodup
-  have hrange := h.inv.range
-  have hcount := h.inv.count
-  rw [flatten_singletons] at hnd hrange hcount
-  refine ⟨?_, ?_, (List.nodup_append.mp hnd).1, ?_, ?_, ?_⟩
-  · intro off ho
-    rw [← h.cells]
-    rcases ho with ho | ho
-    · exact absVT_tombstone t off (FreeChain_mem t _ _ h.inv.free off ho).2.2
-    · exact absVT_blank t off (h.blank off (Or.inr (by rw [h.filled]; exact ho)))
-  · intro off ho
-    have := hrange off (List.mem_append_right _ ((h.liveIff off).mpr ho))
-    rw [← h.filled]; exact this
-  · intro off ho
-    have := hrange off (List.mem_append_left _ ho)
-    rw [← h.filled]; exact this
-  · rw [← h.filled]; omega
-  · intro off h1 h2
-    have := cover_of_count (A.tier.free ++ live) t.filled hnd hrange
-      (by rw [List.length_append]; exact hcount) off h1 (by rw [h.filled]; exact h2)
-    rcases List.mem_append.mp this with h | h'
-    · exact Or.inl h
-    · exact Or.inr ((h.liveIff off).mp h')
+theorem chain_decomp (c : List Nat) (h : c ≠ []) : c = c.headD 0 :: c.tail := by
+  cases c with
+  | nil => exact absurd rfl h
+  | cons a r => rfl
+
+theorem headD_mem (c : List Nat) (h : c ≠ []) : c.headD 0 ∈ c := by
+  cases c with
+  | nil => exact absurd rfl h
+  | cons a r => simp
+
+theorem chainRest_of_not_mem : ∀ (l : List (Nat × List Nat)) (h : Nat), h ∉ l.map (·.1) →
+    chainRest l h = [] := by
+  intro l
+  induction l with
+  | nil => intro h _; rfl
+  | cons x l ih =>
+    intro h hn
+    obtain ⟨h1, r1⟩ := x
+    simp only [List.map_cons, List.mem_cons, not_or] at hn
+    have hne : ¬ h1 = h := fun e => hn.1 e.symm
+    simp only [chainRest, hne, if_false]
+    exact ih h hn.2
+
+theorem mem_ownedOf : ∀ (l : List (Nat × List Nat)), (l.map (·.1)).Nodup → ∀ x, x ∈ ownedOf l →
+    ∃ h, h ∈ l.map (·.1) ∧ x ∈ chainRest l h := by
+  intro l
+  induction l with
+  | nil => intro _ x hx; simp [ownedOf] at hx
+  | cons y l ih =>
+    intro hnd x hx
+    obtain ⟨h1, r1⟩ := y
+    simp only [List.map_cons, List.nodup_cons] at hnd
+    simp only [ownedOf, List.mem_append] at hx
+    rcases hx with hx | hx
+    · exact ⟨h1, by simp, by simp [chainRest, hx]⟩
+    · obtain ⟨h, hm, hr⟩ := ih hnd.2 x hx
+      have e2 : ¬ h1 = h := fun e => hnd.1 (e ▸ hm)
+      exact ⟨h, by simp [hm], by simp [chainRest, e2, hr]⟩
+
+theorem mem_ownedOf_of_rest : ∀ (l : List (Nat × List Nat)) (h x : Nat), x ∈ chainRest l h →
+    x ∈ ownedOf l := by
+  intro l
+  induction l with
+  | nil => intro h x hx; simp [chainRest] at hx
+  | cons y l ih =>
+    intro h x hx
+    obtain ⟨h1, r1⟩ := y
+    simp only [chainRest] at hx
+    simp only [ownedOf, List.mem_append]
+    by_cases e : h1 = h
+    · rw [if_pos e] at hx; exact Or.inl hx
+    · rw [if_neg e] at hx; exact Or.inr (ih h x hx)
+
+/-- a chain whose head is not a listed head cannot share a slot with the list: in a duplicate-free
+flattening, two chains of the list with the same head are the same position -/
+theorem head_not_in_others (c0 : List Nat) (Lr : List (List Nat)) (hnd : (c0 ++ Lr.flatten).Nodup)
+    (hc0 : c0 ≠ []) (c : List Nat) (hc : c ∈ Lr) (hne : c ≠ []) : c.headD 0 ≠ c0.headD 0 := by
+  intro e
+  have h1 : c.headD 0 ∈ Lr.flatten := List.mem_flatten.mpr ⟨c, hc, headD_mem c hne⟩
+  have h2 : c0.headD 0 ∈ c0 := headD_mem c0 hc0
+  exact (List.nodup_append.mp hnd).2.2 _ h2 _ h1 e.symm
+
+/-! ## the representation relation -/
+
+/-- The byte-level table `t` represents the abstract store `A`; `L` lists the live chains (a
+one-slot value is a chain of length one).
+  * C06's invariant holds with the free list of the index model and `L`;
+  * the cell at the head of every chain is what a keyed read of the chain returns, the recorded
+    continuation slots are the rest of the chain; no cell elsewhere; no chain recorded for a slot
+    that is not a live head;
+  * the parts after the head are not chain heads (so a stale index entry pointing into the
+    middle of a chain reads nothing);
+  * the header slot and the slots at or above the fill mark were never written. -/
+structure RepL (t : VT) (A : AStore) (L : List (List Nat)) : Prop where
+  filled : t.filled = A.tier.filled
+  inv : ValueTable.SlotInv t A.tier.free L
+  parts : ∀ c ∈ L, ∀ j ∈ c.tail, t.multipart = true ∧ ¬ isMultiHead (t.slots j)
+  heads : ∀ c ∈ L, absVT t (c.headD 0) = A.cell (c.headD 0) ∧ (A.cell (c.headD 0)).isSome = true ∧
+    c.tail = chainRest A.tier.chains (c.headD 0)
+  off : ∀ i, (∀ c ∈ L, c.headD 0 ≠ i) → A.cell i = none
+  recorded : ∀ h ∈ A.tier.chains.map (·.1), ∃ c ∈ L, c.headD 0 = h
+  chainsNodup : (A.tier.chains.map (·.1)).Nodup
+  blank : ∀ i, (i = 0 ∨ t.filled ≤ i) → t.slots i = []
+
+def Rep (t : VT) (A : AStore) : Prop := ∃ L, RepL t A L
+
+theorem RepL.ne_nil {t : VT} {A : AStore} {L : List (List Nat)} (h : RepL t A L) (c : List Nat)
+    (hc : c ∈ L) : c ≠ [] := IsChain_ne_nil t c (h.inv.chains c hc)
+
+/-- every live cell is the head of a listed chain -/
+theorem RepL.live {t : VT} {A : AStore} {L : List (List Nat)} (h : RepL t A L) (a : Nat)
+    (ha : (A.cell a).isSome = true) : ∃ c ∈ L, c.headD 0 = a := by
+  apply Classical.byContradiction
+  intro hn
+  have := h.off a (fun c hc e => hn ⟨c, hc, e⟩)
+  rw [this] at ha; cases ha
+
+/-- every slot reads as the abstract cell -/
+theorem RepL.cells {t : VT} {A : AStore} {L : List (List Nat)} (h : RepL t A L) (i : Nat) :
+    absVT t i = A.cell i := by
+  by_cases hh : ∃ c ∈ L, c.headD 0 = i
+  · obtain ⟨c, hc, rfl⟩ := hh
+    exact (h.heads c hc).1
+  · have hcell : A.cell i = none := h.off i (fun c hc e => hh ⟨c, hc, e⟩)
+    rw [hcell]
+    by_cases hb : i = 0 ∨ t.filled ≤ i
+    · exact absVT_blank t i (h.blank i hb)
+    · have hi := cover_of_count (A.tier.free ++ L.flatten) t.filled h.inv.nodup h.inv.range
+        (by rw [List.length_append]; exact h.inv.count) i (by omega) (by omega)
+      rcases List.mem_append.mp hi with hf | hl
+      · exact absVT_tombstone t i (FreeChain_mem t _ _ h.inv.free i hf).2.2
+      · obtain ⟨c, hc, hic⟩ := List.mem_flatten.mp hl
+        have hdec := chain_decomp c (h.ne_nil c hc)
+        rw [hdec] at hic
+        rcases List.mem_cons.mp hic with e | e
+        · exact absurd ⟨c, hc, e.symm⟩ hh
+        · obtain ⟨hmp, hnh⟩ := h.parts c hc i e
+          exact absVT_nonhead t i hmp hnh
 
 /-- reads: a keyed read at a slot succeeds iff the abstract cell holds that tail -/
-theorem RepL.read {t : VT} {A : AStore} {live : List Nat} (h : RepL t A live) (tl : Bytes)
+theorem RepL.read {t : VT} {A : AStore} {L : List (List Nat)} (h : RepL t A L) (tl : Bytes)
     (i : Nat) (v : Bytes) (c : Bool) :
     (∃ n, readChain t (.partialKey tl) i = .ok (some (v, c, n))) ↔ A.cell i = some (tl, v, c) := by
   rw [← h.cells]
@@ -297,260 +559,101 @@ theorem RepL.read {t : VT} {A : AStore} {live : List Nat} (h : RepL t A live) (t
   · rintro ⟨n, hn⟩; exact absVT_of_read t tl i v c n hn
   · exact read_of_absVT t tl i v c
 
-theorem AStore.alloc_nil (A : AStore) (h : A.tier.free = []) :
-    A.alloc = (A.tier.filled, { A with tier := ⟨A.tier.filled + 1, []⟩ }) := by
-  simp only [AStore.alloc, h]
+/-- the recorded continuation slots of a listed head are the rest of its chain -/
+theorem RepL.chain_eq {t : VT} {A : AStore} {L : List (List Nat)} (h : RepL t A L) (c : List Nat)
+    (hc : c ∈ L) : c = c.headD 0 :: chainRest A.tier.chains (c.headD 0) := by
+  rw [← (h.heads c hc).2.2]; exact chain_decomp c (h.ne_nil c hc)
 
-theorem AStore.alloc_cons (A : AStore) (o : Nat) (rest : List Nat) (h : A.tier.free = o :: rest) :
-    A.alloc = (o, { A with tier := ⟨A.tier.filled, rest⟩ }) := by
-  simp only [AStore.alloc, h]
+/-- a slot that is free or fresh has no chain recorded -/
+theorem RepL.rest_of_dead {t : VT} {A : AStore} {L : List (List Nat)} (h : RepL t A L) (o : Nat)
+    (ho : o ∈ A.tier.free ∨ A.tier.filled ≤ o) : chainRest A.tier.chains o = [] := by
+  apply chainRest_of_not_mem
+  intro hm
+  obtain ⟨c, hc, e⟩ := h.recorded o hm
+  have hin : o ∈ L.flatten := List.mem_flatten.mpr ⟨c, hc, e ▸ headD_mem c (h.ne_nil c hc)⟩
+  rcases ho with ho | ho
+  · exact (List.nodup_append.mp h.inv.nodup).2.2 o ho o hin rfl
+  · have := h.inv.range o (List.mem_append_right _ hin)
+    rw [h.filled] at this; omega
 
-/-- INSERT commutes with the abstraction: `write_insert_plan` succeeds, takes the slot the index
-model's allocator takes (head of the free list, else the fill mark) and the table represents the
-updated store. -/
-theorem RepL.insert {t : VT} {A : AStore} {live : List Nat} (h : RepL t A live) (tl v : Bytes)
-    (c : Bool) (hok : WriteOk t (.partialKey tl) v) (hb : t.filled + 1 ≤ 2 ^ 64) :
-    ∃ r, writeChain t (.partialKey tl) v none c = .ok r ∧ r.addr = (A.insert (tl, v, c)).1 ∧
-      RepL r.table (A.insert (tl, v, c)).2 (r.addr :: live) ∧ SameCfg t r.table := by
-  have hn := numParts_single hok h.single
+/-- The index model's slot invariant (`Index.SlotInv`, one tier), read off the byte level. -/
+structure AStoreInv (A : AStore) : Prop where
+  /-- free-list members, continuation slots and slots at or above the fill mark hold no value -/
+  fresh : ∀ off, (off ∈ A.tier.free ∨ off ∈ ownedOf A.tier.chains ∨ A.tier.filled ≤ off) →
+    A.cell off = none
+  /-- live slots lie below the fill mark -/
+  addr : ∀ off, (A.cell off).isSome = true → 1 ≤ off ∧ off < A.tier.filled
+  nodup : A.tier.free.Nodup
+  range : ∀ off, off ∈ A.tier.free ++ ownedOf A.tier.chains → 1 ≤ off ∧ off < A.tier.filled
+  /-- no slot is both free and part of a chain -/
+  disjoint : ∀ off ∈ ownedOf A.tier.chains, off ∉ A.tier.free
+  filled : 1 ≤ A.tier.filled
+  /-- no leaked slot -/
+  cover : ∀ off, 1 ≤ off → off < A.tier.filled →
+    off ∈ A.tier.free ∨ off ∈ ownedOf A.tier.chains ∨ (A.cell off).isSome = true
+  /-- one chain per head, recorded only for live values -/
+  heads : (A.tier.chains.map (·.1)).Nodup
+  headLive : ∀ h ∈ A.tier.chains.map (·.1), (A.cell h).isSome = true
+
+theorem RepL.storeInv {t : VT} {A : AStore} {L : List (List Nat)} (h : RepL t A L) :
+    AStoreInv A := by
   have hnd := h.inv.nodup
   have hrange := h.inv.range
   have hcount := h.inv.count
-  obtain ⟨r, h1, h2, h3, _, h5, h6, _, h8⟩ := writeChain_spec t (.partialKey tl) v c A.tier.free []
-    (live.map (fun a => [a])) hok h.inv.free (by simpa using hnd) (by simpa using hrange)
-    (by simpa using hcount) h.inv.chains (Or.inl rfl) (by rw [hn]; exact hb)
-  rw [hn] at h2 h6
-  have h1' : writeChain t (.partialKey tl) v none c = .ok r := h1
-  have hmp' : r.table.multipart = false := by rw [h8.2.1]; exact h.single
-  -- the chain is the single slot returned
-  have hlen : r.chain.length = 1 := by
-    rw [h2]; unfold newChain; simp only [List.take_nil]
-    exact extChain_length t _ [] 1 (by simp)
-  have hchain : r.chain = [r.addr] := by
-    rw [h3]
-    cases hc : r.chain with
-    | nil => rw [hc] at hlen; cases hlen
-    | cons a rest =>
-      cases rest with
-      | nil => rfl
-      | cons b rest' => rw [hc] at hlen; simp at hlen
-  have hframe : ∀ j, j ≠ r.addr → r.table.slots j = t.slots j := fun j hj =>
-    writeChain_frame_single t _ v none c r h.single h1' j (by rw [hchain]; simpa using hj)
-  have hcells : ∀ i, absVT r.table i = if i = r.addr then some (tl, v, c) else A.cell i := by
-    intro i
-    by_cases hi : i = r.addr
-    · rw [if_pos hi, hi]; exact absVT_of_read r.table tl r.addr v c 1 h5
-    · rw [if_neg hi, absVT_congr_single t r.table h8 h.single i (hframe i hi)]; exact h.cells i
-  rw [hchain] at h6
-  have haddr_range := h6.range r.addr (by simp)
-  have hfl := h6.count
-  rw [flatten_singletons] at hcount
-  simp only [List.flatten_cons, flatten_singletons, List.length_append, List.length_cons,
-    List.length_nil] at hfl
-  have hlive : ∀ a, a ∈ r.addr :: live ↔
-      ((if a = r.addr then some (tl, v, c) else A.cell a) : Option (Bytes × Bytes × Bool)).isSome = true := by
-    intro a
-    by_cases ha : a = r.addr
-    · simp [ha]
-    · simp only [List.mem_cons, ha, false_or, if_false]; exact h.liveIff a
-  cases hF : A.tier.free with
-  | nil =>
-    rw [hF] at h2 h6 hfl hcount
-    have ha : r.addr = t.filled := by
-      rw [h3, h2]; simp [newChain, extChain]
-    have hfilled : r.table.filled = t.filled + 1 := by
-      simp [newFree] at hfl hcount; omega
-    refine ⟨r, h1', ?_, ?_, h8⟩
-    · rw [ha, h.filled]; simp only [AStore.insert, AStore.alloc_nil A hF]
-    · simp only [AStore.insert, AStore.alloc_nil A hF, AStore.setCell]
-      rw [← h.filled, ← ha]
-      refine ⟨hmp', hcells, ?_, ?_, hlive, ?_⟩
-      · simp only; rw [hfilled, ha]
-      · simpa [newFree] using h6
-      · intro i hi
-        have hne : i ≠ r.addr := by omega
-        rw [hframe i hne]
-        exact h.blank i (by omega)
-  | cons o rest =>
-    rw [hF] at h2 h6 hfl hcount
-    have ha : r.addr = o := by
-      rw [h3, h2]; simp [newChain, extChain]
-    have hfilled : r.table.filled = t.filled := by
-      simp [newFree] at hfl hcount; omega
-    refine ⟨r, h1', ?_, ?_, h8⟩
-    · rw [ha]; simp only [AStore.insert, AStore.alloc_cons A o rest hF]
-    · simp only [AStore.insert, AStore.alloc_cons A o rest hF, AStore.setCell]
-      rw [← ha]
-      refine ⟨hmp', hcells, ?_, ?_, hlive, ?_⟩
-      · simp only; rw [hfilled, h.filled]
-      · simpa [newFree] using h6
-      · intro i hi
-        have hne : i ≠ r.addr := by omega
-        rw [hframe i hne]
-        exact h.blank i (by omega)
+  -- a continuation slot of the model is a non-head slot of a listed chain
+  have hown : ∀ x, x ∈ ownedOf A.tier.chains → ∃ c ∈ L, x ∈ c.tail := by
+    intro x hx
+    obtain ⟨hd, hm, hr⟩ := mem_ownedOf _ h.chainsNodup x hx
+    obtain ⟨c, hc, e⟩ := h.recorded hd hm
+    exact ⟨c, hc, by rw [(h.heads c hc).2.2, e]; exact hr⟩
+  have hownL : ∀ x, x ∈ ownedOf A.tier.chains → x ∈ L.flatten := by
+    intro x hx
+    obtain ⟨c, hc, hxc⟩ := hown x hx
+    exact List.mem_flatten.mpr ⟨c, hc, List.mem_of_mem_tail hxc⟩
+  refine ⟨?_, ?_, (List.nodup_append.mp hnd).1, ?_, ?_, ?_, ?_, h.chainsNodup, ?_⟩
+  · intro off ho
+    rw [← h.cells]
+    rcases ho with ho | ho | ho
+    · exact absVT_tombstone t off (FreeChain_mem t _ _ h.inv.free off ho).2.2
+    · obtain ⟨c, hc, hxc⟩ := hown off ho
+      obtain ⟨hmp, hnh⟩ := h.parts c hc off hxc
+      exact absVT_nonhead t off hmp hnh
+    · exact absVT_blank t off (h.blank off (Or.inr (by rw [h.filled]; exact ho)))
+  · intro off ho
+    obtain ⟨c, hc, e⟩ := h.live off ho
+    have := hrange off (List.mem_append_right _
+      (List.mem_flatten.mpr ⟨c, hc, e ▸ headD_mem c (h.ne_nil c hc)⟩))
+    rw [← h.filled]; exact this
+  · intro off ho
+    rw [← h.filled]
+    rcases List.mem_append.mp ho with ho | ho
+    · exact hrange off (List.mem_append_left _ ho)
+    · exact hrange off (List.mem_append_right _ (hownL off ho))
+  · intro off ho hf
+    exact (List.nodup_append.mp hnd).2.2 off hf off (hownL off ho) rfl
+  · rw [← h.filled]; omega
+  · intro off h1 h2
+    have := cover_of_count (A.tier.free ++ L.flatten) t.filled hnd hrange
+      (by rw [List.length_append]; exact hcount) off h1 (by rw [h.filled]; exact h2)
+    rcases List.mem_append.mp this with hf | hl
+    · exact Or.inl hf
+    · obtain ⟨c, hc, hic⟩ := List.mem_flatten.mp hl
+      rw [chain_decomp c (h.ne_nil c hc)] at hic
+      rcases List.mem_cons.mp hic with e | e
+      · exact Or.inr (Or.inr (by rw [e]; exact (h.heads c hc).2.1))
+      · refine Or.inr (Or.inl ?_)
+        rw [(h.heads c hc).2.2] at e
+        exact mem_ownedOf_of_rest _ _ _ e
+  · intro hd hm
+    obtain ⟨c, hc, e⟩ := h.recorded hd hm
+    rw [← e]; exact (h.heads c hc).2.1
 
-/-- C06's invariant with the live slot `a` listed first -/
-theorem RepL.inv_first {t : VT} {A : AStore} {live : List Nat} (h : RepL t A live) (a : Nat)
-    (ha : a ∈ live) :
-    ValueTable.SlotInv t A.tier.free ([a] :: (live.erase a).map (fun x => [x])) := by
-  have hp : (live.map (fun x => [x])).Perm ([a] :: (live.erase a).map (fun x => [x])) := by
-    have := (List.perm_cons_erase ha).map (fun x => [x])
-    simpa using this
-  exact SlotInv_perm t _ _ _ hp h.inv
-
-theorem slotInv_back {t : VT} {F live : List Nat} (a : Nat) (ha : a ∈ live)
-    (h : ValueTable.SlotInv t F ([a] :: (live.erase a).map (fun x => [x]))) :
-    ValueTable.SlotInv t F (live.map (fun x => [x])) := by
-  have hp : ([a] :: (live.erase a).map (fun x => [x])).Perm (live.map (fun x => [x])) := by
-    have := ((List.perm_cons_erase ha).map (fun x => [x])).symm
-    simpa using this
-  exact SlotInv_perm t _ _ _ hp h
-
-/-- REPLACE IN PLACE commutes with the abstraction: `write_replace_plan` at a live slot keeps
-the address and the allocator state, the table represents the store with that cell replaced. -/
-theorem RepL.replace {t : VT} {A : AStore} {live : List Nat} (h : RepL t A live) (a : Nat)
-    (ha : a ∈ live) (tl v : Bytes) (c : Bool) (hok : WriteOk t (.partialKey tl) v)
-    (hb : t.filled + 1 ≤ 2 ^ 64) :
-    ∃ r, writeChain t (.partialKey tl) v (some a) c = .ok r ∧ r.addr = a ∧
-      RepL r.table (A.replace a (tl, v, c)) live ∧ SameCfg t r.table := by
-  have hn := numParts_single hok h.single
-  have hinv := h.inv_first a ha
-  have hnd := hinv.nodup
-  have hrange := hinv.range
-  have hcount := hinv.count
-  rw [List.flatten_cons] at hnd hrange hcount
-  rw [List.length_append] at hcount
-  obtain ⟨r, h1, h2, h3, _, h5, h6, _, h8⟩ := writeChain_spec t (.partialKey tl) v c A.tier.free [a]
-    ((live.erase a).map (fun x => [x])) hok hinv.free hnd hrange hcount
-    (fun ch hch => hinv.chains ch (by simp [hch])) (Or.inr (hinv.chains [a] (by simp)))
-    (by rw [hn]; exact hb)
-  rw [hn] at h2 h6
-  have h1' : writeChain t (.partialKey tl) v (some a) c = .ok r := h1
-  have hmp' : r.table.multipart = false := by rw [h8.2.1]; exact h.single
-  have hchain : r.chain = [a] := by rw [h2]; simp [newChain, extChain]
-  have haddr : r.addr = a := by rw [h3, hchain]; rfl
-  have hnf : newFree A.tier.free [a] 1 = A.tier.free := by simp [newFree]
-  rw [hchain, hnf] at h6
-  have hframe : ∀ j, j ≠ a → r.table.slots j = t.slots j := fun j hj =>
-    writeChain_frame_single t _ v (some a) c r h.single h1' j (by rw [hchain]; simpa using hj)
-  have hfl := h6.count
-  rw [List.flatten_cons, List.length_append] at hfl
-  have hfilled : r.table.filled = t.filled := by omega
-  have harange := hrange a (by simp)
-  refine ⟨r, h1', haddr, ?_, h8⟩
-  simp only [AStore.replace, AStore.setCell]
-  refine ⟨hmp', ?_, ?_, slotInv_back a ha h6, ?_, ?_⟩
-  · intro i
-    by_cases hi : i = a
-    · simp only [hi, if_true]
-      have := absVT_of_read r.table tl r.addr v c 1 h5
-      rw [haddr] at this; exact this
-    · simp only [hi, if_false]
-      rw [absVT_congr_single t r.table h8 h.single i (hframe i hi)]; exact h.cells i
-  · simp only; rw [hfilled, h.filled]
-  · intro a'
-    by_cases ha' : a' = a
-    · simp [ha', ha]
-    · simp only [ha', if_false]; exact h.liveIff a'
-  · intro i hi
-    have hne : i ≠ a := by omega
-    rw [hframe i hne]
-    exact h.blank i (by omega)
-
-/-- REMOVE commutes with the abstraction: `write_remove_plan` at a live slot empties the cell
-and pushes the slot on the free list. -/
-theorem RepL.remove {t : VT} {A : AStore} {live : List Nat} (h : RepL t A live) (a : Nat)
-    (ha : a ∈ live) (hb : t.filled ≤ 2 ^ 64) :
-    ∃ t', removePlan t a = .ok (t', [a]) ∧ RepL t' (A.remove a) (live.erase a) ∧ SameCfg t t' := by
-  have hinv := h.inv_first a ha
-  obtain ⟨t', h1, h2, _, h4, h5⟩ := removePlan_spec t A.tier.free [a]
-    ((live.erase a).map (fun x => [x])) hinv hb
-  have h1' : removePlan t a = .ok (t', [a]) := h1
-  have ht' : t' = clearSlot t a := by
-    have : removePlan t a = .ok (clearSlot t a, [a]) := by simp [removePlan, h.single]
-    rw [this] at h1'
-    injection h1' with e; injection e with e _; exact e.symm
-  have hframe : ∀ j, j ≠ a → t'.slots j = t.slots j := fun j hj => by
-    rw [ht']; exact clearSlot_ne t a j hj
-  have hmp' : t'.multipart = false := by rw [h4.2.1]; exact h.single
-  have h2' : ValueTable.SlotInv t' (a :: A.tier.free) ((live.erase a).map (fun x => [x])) := by
-    simpa using h2
-  have harange := hinv.range a (by simp)
-  have hnd := h.live_nodup
-  refine ⟨t', h1', ?_, h4⟩
-  simp only [AStore.remove, AStore.setCell]
-  refine ⟨hmp', ?_, ?_, h2', ?_, ?_⟩
-  · intro i
-    by_cases hi : i = a
-    · simp only [hi, if_true]
-      exact absVT_tombstone t' a (FreeChain_mem t' _ _ h2'.free a (by simp)).2.2
-    · simp only [hi, if_false]
-      rw [absVT_congr_single t t' h4 h.single i (hframe i hi)]; exact h.cells i
-  · simp only; rw [h5, h.filled]
-  · intro a'
-    rw [List.Nodup.mem_erase_iff hnd]
-    by_cases ha' : a' = a
-    · simp [ha']
-    · simp only [ha', if_false, ne_eq, not_false_eq_true, true_and]; exact h.liveIff a'
-  · intro i hi
-    have hne : i ≠ a := by omega
-    rw [hframe i hne]
-    exact h.blank i (by omega)
-
-/-- the empty table of a fixed-size tier represents the empty store -/
-theorem RepL.empty (es : Nat) (rc : Bool) :
-    RepL (VT.empty es false rc) ⟨fun _ => none, Tier.init⟩ [] := by
-  refine ⟨rfl, fun i => absVT_blank _ i rfl, rfl, ?_, by simp, fun _ _ => rfl⟩
-  refine ⟨by simp [FreeChain, VT.empty, Tier.init], by simp [Tier.init], by simp [Tier.init], by simp [VT.empty, Tier.init], by simp⟩
-
-/-! ## chains (multipart tier): the address is the head slot, the chain is below the abstraction -/
-
-/-- INSERT, any table: the cell at the returned head slot holds the value whatever the number of
-parts; the slots come off the free list first (the allocation order of the index model, repeated
-once per part); the cells at the heads of the other live chains are unchanged. -/
-theorem heads_insert (t : VT) (tl v : Bytes) (c : Bool) (F : List Nat) (L : List (List Nat))
-    (hok : WriteOk t (.partialKey tl) v) (hinv : ValueTable.SlotInv t F L)
-    (hb : t.filled + numParts t (.partialKey tl) v ≤ 2 ^ 64) :
-    ∃ r, writeChain t (.partialKey tl) v none c = .ok r ∧ r.addr = r.chain.headD 0 ∧
-      r.chain = F.take (numParts t (.partialKey tl) v) ++
-        List.range' t.filled (numParts t (.partialKey tl) v - F.length) ∧
-      absVT r.table r.addr = some (tl, v, c) ∧
-      ValueTable.SlotInv r.table (F.drop (numParts t (.partialKey tl) v)) (r.chain :: L) ∧
-      ∀ ch ∈ L, absVT r.table (ch.headD 0) = absVT t (ch.headD 0) := by
-  obtain ⟨r, h1, h2, h3, _, h5, h6⟩ := C06_roundtrip t (.partialKey tl) v c F L hok hinv hb
-  obtain ⟨r', g1, g2, _⟩ := C06_insert_reuses_free t (.partialKey tl) v c F L hok hinv hb
-  have : r' = r := by rw [h1] at g1; injection g1 with e; exact e.symm
-  subst this
-  exact ⟨r', h1, h3, g2, absVT_of_read _ tl _ v c 1 h2, h5,
-    fun ch hch => absVT_congr_read t r'.table _ (h6 ch hch)⟩
-
-/-- REPLACE, any table: same address (the old head), the new value whatever the old and new
-chain lengths. -/
-theorem heads_replace (t : VT) (tl v : Bytes) (c : Bool) (F c0 : List Nat) (Lr : List (List Nat))
-    (hok : WriteOk t (.partialKey tl) v) (hinv : ValueTable.SlotInv t F (c0 :: Lr))
-    (hb : t.filled + numParts t (.partialKey tl) v ≤ 2 ^ 64) :
-    ∃ r, writeChain t (.partialKey tl) v (some (c0.headD 0)) c = .ok r ∧ r.addr = c0.headD 0 ∧
-      absVT r.table r.addr = some (tl, v, c) ∧
-      ValueTable.SlotInv r.table (newFree F c0 (numParts t (.partialKey tl) v)) (r.chain :: Lr) ∧
-      ∀ ch ∈ Lr, absVT r.table (ch.headD 0) = absVT t (ch.headD 0) := by
-  obtain ⟨r, h1, h2, h3, _, h5, h6⟩ := C06_replace_roundtrip t (.partialKey tl) v c F c0 Lr hok hinv hb
-  exact ⟨r, h1, h2, absVT_of_read _ tl _ v c 1 h3, h5,
-    fun ch hch => absVT_congr_read t r.table _ (h6 ch hch)⟩
-
-/-- REMOVE, any table: the cell at the head becomes empty, every slot of the chain goes to the
-free list (last part on top). -/
-theorem heads_remove (t : VT) (F c0 : List Nat) (Lr : List (List Nat))
-    (hinv : ValueTable.SlotInv t F (c0 :: Lr)) (hb : t.filled ≤ 2 ^ 64) :
-    ∃ t', removePlan t (c0.headD 0) = .ok (t', c0) ∧ absVT t' (c0.headD 0) = none ∧
-      ValueTable.SlotInv t' (c0.reverse ++ F) Lr ∧
-      ∀ ch ∈ Lr, absVT t' (ch.headD 0) = absVT t (ch.headD 0) := by
-  obtain ⟨t', h1, h2, _, h4⟩ := C06_remove_frees t F c0 Lr hinv hb
-  refine ⟨t', h1, ?_, h2, fun ch hch => absVT_congr_read t t' _ (h4 ch hch)⟩
-  have hne := IsChain_ne_nil t c0 (hinv.chains c0 (by simp))
-  have hmem : c0.headD 0 ∈ c0.reverse ++ F := by
-    cases c0 with
-    | nil => exact absurd rfl hne
-    | cons a r => simp
-  exact absVT_tombstone t' _ (FreeChain_mem t' _ _ h2.free _ hmem).2.2
+/-- the empty table (fixed-size tier or the multipart table) represents the empty store -/
+theorem RepL.empty (es : Nat) (mp rc : Bool) :
+    RepL (VT.empty es mp rc) ⟨fun _ => none, Tier.init⟩ [] := by
+  refine ⟨rfl, ?_, by simp, by simp, fun _ _ => rfl, by simp [Tier.init], by simp [Tier.init],
+    fun _ _ => rfl⟩
+  refine ⟨by simp [FreeChain, VT.empty, Tier.init], by simp [Tier.init], by simp [Tier.init],
+    by simp [VT.empty, Tier.init], by simp⟩
 
 end Pdb.Refine
